@@ -1023,11 +1023,20 @@ func runC16(cx *ctx) {
 	miniUnwrap := pickItems(c16Core, "fk0", "fk0-empty", "fk1", "error", "msg", "confirm1", "confirm0", "rs0", "done", "junk-line")
 
 	// 1. every UI combination, short conversations
+	// modes(both): synchronous and burst delivery, or one of them drawn at random
+	modes := func(both bool) []bool {
+		if both {
+			return []bool{true, false}
+		}
+		return []bool{r.Bool()}
+	}
 	allUI := func(al []c16Item, n int) {
 		c16Enum(al, n, func(items []c16Item) {
 			for _, ident := range []bool{false, true} {
 				for _, ui := range c16UIs {
-					env.do(cx, "allui", mk(r.Fork(), ident, ui, r.Bool(), items))
+					for _, sync := range modes(n <= 1) {
+						env.do(cx, "allui", mk(r.Fork(), ident, ui, sync, items))
+					}
 				}
 			}
 		})
@@ -1046,7 +1055,9 @@ func runC16(cx *ctx) {
 		}
 		c16Enum(al, n, func(items []c16Item) {
 			for _, ident := range machines {
-				env.do(cx, kind, mk(r.Fork(), ident, h.Pick(r, c16UIs), r.Bool(), items))
+				for _, sync := range modes(kind == "core" && n <= 3) {
+					env.do(cx, kind, mk(r.Fork(), ident, h.Pick(r, c16UIs), sync, items))
+				}
 			}
 		})
 	}
